@@ -257,7 +257,7 @@ class Check(PropertyCheck):
     # exe mode: `<shell> script` with the stub executables first on PATH (one exec of the shell + one of the stub)
     RUNNER_EXE = ('while read -r shell script out stdin; do '
                   'if [ "$stdin" = - ]; then unset C48_STDIN; else C48_STDIN="$stdin"; export C48_STDIN; fi; '
-                  '"$shell" "$script" >"$out.o" 2>"$out.e" </dev/null; echo $?; done')
+                  '"$shell" "$script" >"$out.o" 2>"$out.e" <"$C48_EMPTY"; echo $?; done')
     # fn mode: the script is sourced in a subshell of a persistent shell under test, curl/http are shell functions with
     # the stub's behaviour (no exec at all: process creation costs ~50 ms on the loaded box); PATH still holds only stubs
     STUB_FN = ('%s() { printf "%%s\\000" "$#" %s; for a in "$@"; do printf "%%s\\000" "$a"; done; '
@@ -265,7 +265,7 @@ class Check(PropertyCheck):
     RUNNER_FN = (STUB_FN % ("curl", "curl") + STUB_FN % ("http", "http") +
                  'while read -r shell script out stdin; do '
                  '( if [ "$stdin" = - ]; then unset C48_STDIN; else C48_STDIN="$stdin"; fi; . "$script" ) '
-                 '>"$out.o" 2>"$out.e" </dev/null; echo $?; done')
+                 '>"$out.o" 2>"$out.e" <"$C48_EMPTY"; echo $?; done')
     _runners = {}
 
     def _run(self, shell, script_path, out, stdin_path, mode):
@@ -273,7 +273,9 @@ class Check(PropertyCheck):
         pr = Check._runners.get(key)
         if pr is None or pr.poll() is not None:
             argv = ["/bin/sh", "-c", self.RUNNER_EXE] if mode == "exe" else [SHELLS[shell], "-c", self.RUNNER_FN]
-            pr = subprocess.Popen(argv, env={"PATH": BIN, "LC_ALL": "C.UTF-8"},
+            empty = os.path.join(WORK, "c48", "empty")
+            open(empty, "wb").close()
+            pr = subprocess.Popen(argv, env={"PATH": BIN, "LC_ALL": "C.UTF-8", "C48_EMPTY": empty},
                                   stdin=subprocess.PIPE, stdout=subprocess.PIPE, stderr=subprocess.DEVNULL)
             Check._runners[key] = pr
         pr.stdin.write(("%s %s %s %s\n" % (SHELLS[shell], script_path, out, stdin_path or "-")).encode()); pr.stdin.flush()
